@@ -1,5 +1,6 @@
 use anyhow::anyhow;
 use std::path::{Component, Path, PathBuf};
+use std::sync::atomic::{AtomicU64, Ordering};
 
 use harper_core::{Dictionary, MutableDictionary, WordMetadata};
 use tokio::fs::{self, File};
@@ -13,11 +14,27 @@ pub async fn save_dict(path: impl AsRef<Path>, dict: impl Dictionary) -> Result<
         fs::create_dir_all(parent).await?;
     }
 
-    let file = File::create(path.as_ref()).await?;
+    // Write the new contents next to the destination and move them into place: if the process
+    // dies mid-save, the previous dictionary is still intact (truncating the destination first
+    // would lose every word).
+    static SAVE_COUNTER: AtomicU64 = AtomicU64::new(0);
+
+    let mut temp_name = path.as_ref().as_os_str().to_owned();
+    temp_name.push(format!(
+        ".{}-{}.tmp",
+        std::process::id(),
+        SAVE_COUNTER.fetch_add(1, Ordering::Relaxed)
+    ));
+    let temp_path = PathBuf::from(temp_name);
+
+    let file = File::create(&temp_path).await?;
     let mut write = BufWriter::new(file);
 
     write_word_list(dict, &mut write).await?;
     write.flush().await?;
+    drop(write);
+
+    fs::rename(&temp_path, path.as_ref()).await?;
 
     Ok(())
 }
